@@ -363,3 +363,479 @@ ref("rename-loop-counter", ["C05", "C06"], "rename the counter of a job-table lo
         }
         None
     }"""))
+
+# ================================================================== second batch: C06, C09 - C20
+SC = "src/scripting.rs"
+SG = "src/signals.rs"
+H = "src/history.rs"
+BH = "src/builtins/history.rs"
+CALC = "src/calculator/mod.rs"
+G = "src/parsers/grammar.pest"
+CP = "src/completers/path.rs"
+
+# ------------------------------------------------------------------ C06
+mut("C06", "binary-search-again", "R06-1", "pid lookup assumes sorted pids",
+    (S, "if let Some(i_pid) = x.pids.iter().position(|p| *p == pid) {", "if let Ok(i_pid) = x.pids.binary_search(&pid) {"))
+mut("C06", "exited-parked-as-stopped", "R06-2", "exit of a background child is parked in the stop map",
+    (J, '''                let status = ws.get_status();
+                signals::insert_reap_map(pid, status);''', '''                let _status = ws.get_status();
+                signals::insert_stopped_map(pid);'''))
+mut("C06", "cont-map-never-drained", "pop_cont_map", "continued events are never applied",
+    (J, '''            if signals::pop_stopped_map(*pid) {
+                mark_job_member_stopped(sh, *pid, job.gid, report);
+            } else if signals::pop_cont_map(*pid) {
+                mark_job_member_continued(sh, *pid, job.gid);
+            }''', '''            if signals::pop_stopped_map(*pid) {
+                mark_job_member_stopped(sh, *pid, job.gid, report);
+            }'''))
+mut("C06", "ids-from-zero", "R06-4", "job ids start at 0",
+    (S, '''    pub fn insert_job(&mut self, gid: i32, pid: i32, cmd: &str, status: &str, bg: bool) {
+        let mut i = 1;''', '''    pub fn insert_job(&mut self, gid: i32, pid: i32, cmd: &str, status: &str, bg: bool) {
+        let mut i = 0;'''))
+mut("C06", "poll-while-unblocked", "R06-3", "the job table is polled while SIGCHLD is deliverable",
+    (M, '''        if sig_handler_enabled {
+            // FIXME: in `rl.read_line()` below, there is lots of Rust code,''', '''        if sig_handler_enabled {
+            signals::unblock_signals();
+            jobc::try_wait_bg_jobs(&mut sh, false, sig_handler_enabled);
+            // FIXME: in `rl.read_line()` below, there is lots of Rust code,'''))
+mut("C06", "kill-map-shared", "R06-2", "killed events share the reap map",
+    (SG, '''pub fn killed_map_insert(pid: i32, sig: i32) {
+    if let Ok(mut m) = KILL_MAP.try_lock() {''', '''pub fn killed_map_insert(pid: i32, sig: i32) {
+    if let Ok(mut m) = REAP_MAP.try_lock() {'''))
+mut("C06", "all-stopped-any", "R06-5", "job counts as stopped when any member is",
+    (T, '''            if !self.pids_stopped.contains(pid) {
+                return false;
+            }
+        }
+        true''', '''            if self.pids_stopped.contains(pid) {
+                return true;
+            }
+        }
+        false'''))
+
+# ------------------------------------------------------------------ C09
+mut("C09", "cd-state-before-chdir", "R09-1", "current_dir updated before chdir succeeds",
+    ("src/builtins/cd.rs", '''    match env::set_current_dir(&dir_to) {
+        Ok(_) => {
+            sh.current_dir = dir_to.clone();''', '''    sh.current_dir = dir_to.clone();
+    match env::set_current_dir(&dir_to) {
+        Ok(_) => {'''))
+mut("C09", "prefix-applies-to-shell", "R09-2", "NAME=v cmd changes the shell's variable",
+    (E, '''            if cl.is_empty() {
+                // for commands with only envs, e.g.
+                // $ FOO=1 BAR=2
+                // we need to define these **Shell Variables**.
+                if !cl.envs.is_empty() {
+                    set_shell_vars(sh, &cl.envs);
+                }
+                return CommandResult::new();
+            }
+''', '''            if !cl.envs.is_empty() {
+                set_shell_vars(sh, &cl.envs);
+            }
+            if cl.is_empty() {
+                return CommandResult::new();
+            }
+'''))
+mut("C09", "unset-keeps-exported", "R09-4", "unset leaves the exported variable",
+    (S, '''        env::remove_var(name);
+        self.envs.remove(name);''', '''        self.envs.remove(name);'''))
+mut("C09", "child-env-without-prefix", "R09-3", "NAME=v cmd does not reach the child",
+    (C, '''            for (key, value) in cl.envs.iter() {
+                c_envs.push(
+                    CString::new(format!("{}={}", key, value).as_str()).expect("CString error"),
+                );
+            }
+''', ""))
+mut("C09", "set-env-always-local", "R09-5", "assignment to an exported name stays local",
+    (S, '''        if env::var(name).is_ok() {
+            env::set_var(name, value);
+        } else {
+            self.envs.insert(name.to_string(), value.to_string());
+        }''', '''        self.envs.insert(name.to_string(), value.to_string());'''))
+mut("C09", "cd-failure-silent", "fail-status", "failed cd returns status 0",
+    ("src/builtins/cd.rs", '''        Err(e) => {
+            let info = format!("cicada: cd: {}", e);
+            print_stderr_with_capture(&info, &mut cr, cl, cmd, capture);
+            cr
+        }''', '''        Err(_e) => {
+            cr
+        }'''))
+
+# ------------------------------------------------------------------ C10
+mut("C10", "swap-dollar-arms", "R10-3", "$? and $$ swapped",
+    (S, '        if key == "?" {', '        if key == "$" {'),
+    (S, '        } else if key == "$" {', '        } else if key == "?" {'))
+mut("C10", "single-quote-expands", "R10-2", "variables expand inside single quotes",
+    (S, '''        if sep == "`" || sep == "'" {
+            idx += 1;
+            continue;
+        }
+
+        if !env_in_token(token) {''', '''        if sep == "`" {
+            idx += 1;
+            continue;
+        }
+
+        if !env_in_token(token) {'''))
+mut("C10", "status-from-wrong-field", "R10-3", "$? prints the exit_on_error flag",
+    (S, 'result.push_str(format!("{}{}", head, sh.previous_status).as_str());',
+     'result.push_str(format!("{}{}", head, sh.exit_on_error as i32).as_str());'))
+
+# ------------------------------------------------------------------ C11
+mut("C11", "no-capture", "capture#", "substitution runs without capture",
+    (S, '''                    log!("run subcmd dollar: {:?}", &cmd);
+                    let (term_given, cr) = core::run_pipeline(sh, &c, true, true, false);''',
+     '''                    log!("run subcmd dollar: {:?}", &cmd);
+                    let (term_given, cr) = core::run_pipeline(sh, &c, true, false, false);'''))
+mut("C11", "template-unescaped", "R11-1", "output used as replacement template",
+    (S, 'let to = format!("${{head}}{}${{tail}}", output_txt.replace("$", "$$"));',
+     'let to = format!("${{head}}{}${{tail}}", output_txt);'))
+mut("C11", "trim-again", "R11-5", "leading blanks of the output are stripped",
+    (S, "let output_txt = cmd_result.stdout.trim_end_matches('\\n');", "let output_txt = cmd_result.stdout.trim();"))
+mut("C11", "spin-on-error", "R11-3", "unparsable $(...) spins",
+    (S, '''                    println_stderr!("cicada: {}", e);
+                    types::CommandResult::from_status(0, 1)
+                }
+            };
+
+            let output_txt''', '''                    println_stderr!("cicada: {}", e);
+                    continue;
+                }
+            };
+
+            let output_txt'''))
+mut("C11", "no-terminal-back", "R11-4", "terminal not given back after a substitution",
+    (S, '''                    log!("run subcmd dollar: {:?}", &cmd);
+                    let (term_given, cr) = core::run_pipeline(sh, &c, true, true, false);
+                    if term_given {
+                        unsafe {
+                            let gid = libc::getpgid(0);
+                            give_terminal_to(gid);
+                        }
+                    }
+''', '''                    log!("run subcmd dollar: {:?}", &cmd);
+                    let (_term_given, cr) = core::run_pipeline(sh, &c, true, true, false);
+'''))
+
+# ------------------------------------------------------------------ C12
+mut("C12", "glob-ascending", "R12-3", "glob edits applied in ascending order",
+    (S, '''    for (i, result) in buff.iter().rev() {
+        tokens.remove(*i);
+        for (j, token) in result.iter().enumerate() {''', '''    for (i, result) in buff.iter() {
+        tokens.remove(*i);
+        for (j, token) in result.iter().enumerate() {'''))
+mut("C12", "brace-no-quote-tag", "R12-2", "brace results with spaces are not tagged",
+    (S, '''    for (i, items) in buff.iter().rev() {
+        tokens.remove(*i);
+        for (j, token) in items.iter().enumerate() {
+            let sep = if token.contains(' ') { "\\"" } else { "" };
+            tokens.insert(*i + j, (sep.to_string(), token.clone()));
+        }
+    }
+}
+
+fn expand_brace_range''', '''    for (i, items) in buff.iter().rev() {
+        tokens.remove(*i);
+        for (j, token) in items.iter().enumerate() {
+            let sep = "";
+            tokens.insert(*i + j, (sep.to_string(), token.clone()));
+        }
+    }
+}
+
+fn expand_brace_range'''))
+mut("C12", "home-in-quotes", "R12-1", "tilde expands inside quotes",
+    (S, '''        if !sep.is_empty() || !text.starts_with("~") {''', '''        if !text.starts_with("~") {'''))
+mut("C12", "home-template", "R12-4", "home directory used as template",
+    (S, 'let to = format!("{}$tail", home.replace("$", "$$"));', 'let to = format!("{}$tail", home);'))
+
+# ------------------------------------------------------------------ C13
+mut("C13", "env-resets-tag", "R13-2", "expand_env drops the quote tag of the token it rewrites",
+    (S, '''    for (i, text) in buff.iter().rev() {
+        tokens[*i].1 = text.to_string();
+    }
+}
+
+fn should_do_dollar_command_extension''', '''    for (i, text) in buff.iter().rev() {
+        tokens[*i] = (String::new(), text.to_string());
+    }
+}
+
+fn should_do_dollar_command_extension'''))
+mut("C13", "pipe-ignores-tag", "R13-1", "quoted | splits the pipeline",
+    (T, 'if sep.is_empty() && value == "|" {', 'if value == "|" {'))
+mut("C13", "glob-never-tags", "R13-2", "file names with spaces lose their protection tag",
+    (S, '''        for (j, token) in result.iter().enumerate() {
+            let sep = if token.contains(' ') { "\\"" } else { "" };
+            tokens.insert(*i + j, (sep.to_string(), token.clone()));
+        }
+    }
+}
+
+fn expand_one_env''', '''        for (j, token) in result.iter().enumerate() {
+            tokens.insert(*i + j, (String::new(), token.clone()));
+        }
+    }
+}
+
+fn expand_one_env'''))
+
+# ------------------------------------------------------------------ C14
+mut("C14", "unanchored", "R14-1", "unbalanced script silently truncated",
+    (G, "EXP = { (EXP_IF | EXP_FOR | EXP_WHILE | CMD)* ~ EOI }", "EXP = { (EXP_IF | EXP_FOR | EXP_WHILE | CMD)* }"))
+mut("C14", "all-branches-run", "first-true", "every true branch of an if runs",
+    (SC, '''        // break at first successful branch
+        if passed {
+            break;
+        }
+''', ""))
+mut("C14", "flags-swapped", "forward-", "break inside an if acts as continue",
+    (SC, '''            if _cont {
+                return (cr_list, true, false);
+            }
+            if _brk {
+                return (cr_list, false, true);
+            }''', '''            if _cont {
+                return (cr_list, false, true);
+            }
+            if _brk {
+                return (cr_list, true, false);
+            }'''))
+mut("C14", "for-not-in-loop", "in_loop", "break is refused inside for",
+    (SC, '''                let (mut _cr_list, _cont, _brk) = run_exp(
+                    sh, pair.clone(), args, true, capture);''', '''                let (mut _cr_list, _cont, _brk) = run_exp(
+                    sh, pair.clone(), args, false, capture);'''))
+mut("C14", "while-ignores-break", "leave-on-break", "break does not leave while",
+    (SC, "        if !passed || _brk {", "        if !passed {"))
+mut("C14", "new-construct-unhandled", "R14-2", "grammar gains a construct the interpreter ignores",
+    (G, "EXP_BODY = { (CMD | EXP_IF | EXP_WHILE | EXP_FOR)+ }", "EXP_UNTIL = { KW_WHILE ~ TEST ~ NEWLINE }\nEXP_BODY = { (CMD | EXP_IF | EXP_WHILE | EXP_FOR | EXP_UNTIL)+ }"))
+
+# ------------------------------------------------------------------ C15
+mut("C15", "func-status-zero", "R15-1|core::try_run_func", "function status always 0",
+    (C, "        cr.status = status;\n", ""))
+mut("C15", "args-from-two", "R15-2", "positional parameters shifted by one",
+    (SC, '''            let line_new = expand_args(line, &args[1..]);
+            let mut _cr_list = execute::run_command_line(sh, &line_new, true, capture);
+            cr_list.append(&mut _cr_list);''', '''            let line_new = expand_args(line, &args[2..]);
+            let mut _cr_list = execute::run_command_line(sh, &line_new, true, capture);
+            cr_list.append(&mut _cr_list);'''))
+mut("C15", "set-e-ignored", "R15-3", "set -e does not stop the block",
+    (SC, '''            if let Some(last) = cr_list.last() {
+                let status = last.status;
+                if status != 0 && sh.exit_on_error {
+                    return (cr_list, false, false);
+                }
+            }
+''', ""))
+mut("C15", "source-status-lost", "builtins::source::run", "source always returns 0",
+    ("src/builtins/source.rs", '''    let status = scripting::run_script(sh, &args);
+    cr.status = status;''', '''    let _status = scripting::run_script(sh, &args);'''))
+mut("C15", "script-status-first", "run_script", "script status is that of its first command",
+    (SC, "    if let Some(last) = cr_list.last() {\n        status = last.status;", "    if let Some(last) = cr_list.first() {\n        status = last.status;"))
+
+# ------------------------------------------------------------------ C16
+mut("C16", "script-bypasses-funnel", "R16-1", "script lines are planned by the interpreter itself",
+    (SC, '''            let line_new = expand_args(line, &args[1..]);
+            let mut _cr_list = execute::run_command_line(sh, &line_new, true, capture);
+            cr_list.append(&mut _cr_list);''', '''            let line_new = expand_args(line, &args[1..]);
+            let mut _cr_list = match types::CommandLine::from_line(&line_new, sh) {
+                Ok(c) => vec![crate::core::run_pipeline(sh, &c, true, capture, false).1],
+                Err(_) => execute::run_command_line(sh, &line_new, true, capture),
+            };
+            cr_list.append(&mut _cr_list);'''))
+mut("C16", "tagged-rendered-raw", "R16-2", "quoted tokens lose their quotes on the script path",
+    (P, '''        if t.0.is_empty() {
+            result.push_str(&t.1);
+        } else {
+            let s = tools::wrap_sep_string(&t.0, &t.1);
+            result.push_str(&s);
+        }''', '''        if t.0.is_empty() || t.0 == "\\\\" {
+            result.push_str(&t.1);
+        } else {
+            let s = format!("{}{}{}", t.0, t.1, t.0);
+            result.push_str(&s);
+        }'''))
+
+# ------------------------------------------------------------------ C17
+mut("C17", "head-never-cleared", "cleared", "every word is treated as a command word",
+    (S, '''        if !is_head || !sh.is_alias(text) {
+            idx += 1;
+            is_head = false;
+            continue;
+        }''', '''        if !is_head || !sh.is_alias(text) {
+            idx += 1;
+            continue;
+        }'''))
+mut("C17", "lookup-without-head", "guard|is_alias", "aliases expand in argument position",
+    (S, "        if !is_head || !sh.is_alias(text) {", "        if !sh.is_alias(text) {"))
+mut("C17", "quoted-pipe-sets-head", "R17-1", "a quoted | starts a new stage for alias purposes",
+    (S, '''        if sep.is_empty() && text == "|" {
+            is_head = true;''', '''        if text == "|" {
+            is_head = true;'''))
+mut("C17", "unalias-prefix", "R17-3", "unalias trims its argument",
+    ("src/builtins/unalias.rs", "    let input = &tokens[1].1;\n    if !sh.remove_alias(input) {", "    let input = &tokens[1].1;\n    if !sh.remove_alias(input.trim_end_matches('s')) {"))
+
+# ------------------------------------------------------------------ C18
+mut("C18", "dir-in-sql-again", "R18-1", "directory name pasted into the INSERT",
+    (H, '''         VALUES(?1, {}, {}, {}, '{}', ?2);",
+        history_table,
+        status,
+        tsb,
+        tse,
+        sh.session_id,
+    );
+    let info = format!("dir:{}|", sh.current_dir);
+    match conn.execute(&sql, [line.trim(), info.as_str()]) {''', '''         VALUES(?1, {}, {}, {}, '{}', 'dir:{}|');",
+        history_table,
+        status,
+        tsb,
+        tse,
+        sh.session_id,
+        sh.current_dir,
+    );
+    match conn.execute(&sql, [line.trim()]) {'''))
+mut("C18", "space-lines-recorded", "R18-2", "lines starting with a space are recorded",
+    (M, "                if !sh.cmd.starts_with(' ') && line != sh.previous_cmd {", "                if line != sh.previous_cmd {"))
+mut("C18", "pattern-in-sql", "R18-1", "search pattern pasted into the SELECT",
+    (BH, '''        params.push(format!("%{}%", opt.pattern));
+        sql = format!("{} AND inp LIKE ?{}", sql, params.len())''', '''        sql = format!("{} AND inp LIKE '%{}%'", sql, opt.pattern)'''))
+
+# ------------------------------------------------------------------ C19
+mut("C19", "power-left-assoc", "R19-1", "^ is left associative",
+    (CALC, ".op(Op::infix(power, Right))", ".op(Op::infix(power, Left))"))
+mut("C19", "float-sub-adds", "arm|subtract", "float subtraction adds",
+    (CALC, "            Rule::subtract => lhs - rhs,", "            Rule::subtract => lhs + rhs,"))
+mut("C19", "mode-inverted", "R19-3", "float mode chosen without a dot",
+    (C, '''            if line.contains('.') {
+                Ok(format!("{}", calculator::eval_float(expr)))
+            } else {
+                Ok(format!("{}", calculator::eval_int(expr)))
+            }''', '''            if !line.contains('.') {
+                Ok(format!("{}", calculator::eval_float(expr)))
+            } else {
+                Ok(format!("{}", calculator::eval_int(expr)))
+            }'''))
+mut("C19", "div-by-zero-panics", "div-guard", "integer division by zero panics",
+    (CALC, '''                if rhs == 0 {
+                    (lhs as f64 / 0.0) as i64
+                } else {
+                    (W(lhs) / W(rhs)).0
+                }''', '''                (W(lhs) / W(rhs)).0'''))
+mut("C19", "mul-before-add-lost", "R19-1", "* and + share a precedence level",
+    (CALC, '''            .op(Op::infix(add, Left) | Op::infix(subtract, Left))
+            .op(Op::infix(multiply, Left) | Op::infix(divide, Left))''',
+     '''            .op(Op::infix(add, Left) | Op::infix(subtract, Left) | Op::infix(multiply, Left) | Op::infix(divide, Left))'''))
+
+# ------------------------------------------------------------------ C20
+mut("C20", "star-not-escaped", "missing|*", "completion inserts * unescaped",
+    (TL, r'''let re = Regex::new(r##"(?P<c>[!\(\)<>,\?\]\[\{\} \\'"`*\^#|$&;])"##).unwrap();''',
+     r'''let re = Regex::new(r##"(?P<c>[!\(\)<>,\?\]\[\{\} \\'"`\^#|$&;])"##).unwrap();'''))
+mut("C20", "contains-filter", "prefix", "candidates contain the prefix anywhere",
+    (CP, "                if _path.starts_with(&file_name) {", "                if _path.contains(&file_name) {"))
+mut("C20", "unsorted", "sorted", "candidates are not sorted",
+    (CP, "    res.sort_by(|a, b| a.completion.cmp(&b.completion));\n", ""))
+mut("C20", "files-after-cd", "for_dir", "files are offered after cd",
+    (CP, '''            if for_dir && !is_dir {
+                continue;
+            }
+''', ""))
+
+# ------------------------------------------------------------------ more refactors
+ref("history-params-vec", ["C18"], "bind the INSERT parameters through a params! style slice",
+    (H, "    match conn.execute(&sql, [line.trim(), info.as_str()]) {",
+     "    let bound: [&str; 2] = [line.trim(), info.as_str()];\n    match conn.execute(&sql, bound) {"))
+ref("calc-match-order", ["C19", "C05"], "reorder the arms of the float evaluator",
+    (CALC, '''            Rule::add => lhs + rhs,
+            Rule::subtract => lhs - rhs,
+            Rule::multiply => lhs * rhs,''', '''            Rule::multiply => lhs * rhs,
+            Rule::add => lhs + rhs,
+            Rule::subtract => lhs - rhs,'''))
+ref("alias-rename-flag", ["C17", "C01", "C13"], "rename is_head",
+    (S, '''    let mut is_head = true;
+    for (sep, text) in tokens.iter() {
+        if sep.is_empty() && text == "|" {
+            is_head = true;
+            idx += 1;
+            continue;
+        }
+        if is_head && text == "xargs" {
+            idx += 1;
+            continue;
+        }
+
+        if !is_head || !sh.is_alias(text) {
+            idx += 1;
+            is_head = false;
+            continue;
+        }
+
+        if let Some(value) = sh.get_alias_content(text) {
+            buff.push((idx, value.clone()));
+        }
+
+        idx += 1;
+        is_head = false;
+    }''', '''    let mut at_cmd = true;
+    for (sep, text) in tokens.iter() {
+        if sep.is_empty() && text == "|" {
+            at_cmd = true;
+            idx += 1;
+            continue;
+        }
+        if at_cmd && text == "xargs" {
+            idx += 1;
+            continue;
+        }
+
+        if !at_cmd || !sh.is_alias(text) {
+            idx += 1;
+            at_cmd = false;
+            continue;
+        }
+
+        if let Some(value) = sh.get_alias_content(text) {
+            buff.push((idx, value.clone()));
+        }
+
+        idx += 1;
+        at_cmd = false;
+    }'''))
+ref("cd-match-to-iflet", ["C09"], "cd: match on set_current_dir rewritten as if let / else",
+    ("src/builtins/cd.rs", '''    match env::set_current_dir(&dir_to) {
+        Ok(_) => {
+            sh.current_dir = dir_to.clone();
+            if str_current_dir != dir_to {
+                sh.previous_dir = str_current_dir.clone();
+                env::set_var("PWD", &sh.current_dir);
+            };
+            cr.status = 0;
+            cr
+        }
+        Err(e) => {
+            let info = format!("cicada: cd: {}", e);
+            print_stderr_with_capture(&info, &mut cr, cl, cmd, capture);
+            cr
+        }
+    }''', '''    if let Err(e) = env::set_current_dir(&dir_to) {
+        let info = format!("cicada: cd: {}", e);
+        print_stderr_with_capture(&info, &mut cr, cl, cmd, capture);
+        return cr;
+    }
+    sh.current_dir = dir_to.clone();
+    if str_current_dir != dir_to {
+        sh.previous_dir = str_current_dir.clone();
+        env::set_var("PWD", &sh.current_dir);
+    };
+    cr.status = 0;
+    cr'''))
+ref("subst-comment-and-log", ["C10", "C11", "C12", "C13", "C14", "C15", "C16", "C17", "C06", "C09", "C18", "C19", "C20"],
+    "extra log lines in shell.rs / scripting.rs (moves line numbers)",
+    (S, '''pub fn do_expansion(sh: &mut Shell, tokens: &mut types::Tokens) {
+    let line = parsers::parser_line::tokens_to_line(tokens);''', '''pub fn do_expansion(sh: &mut Shell, tokens: &mut types::Tokens) {
+    log!("do_expansion: {} tokens", tokens.len());
+    let line = parsers::parser_line::tokens_to_line(tokens);'''),
+    (SC, '''    let mut cr_list = Vec::new();
+    match parsers::locust::parse_lines(lines) {''', '''    log!("run_lines: {} bytes", lines.len());
+    let mut cr_list = Vec::new();
+    match parsers::locust::parse_lines(lines) {'''))
